@@ -1,10 +1,13 @@
 import NomtModel.Driver.Parse
 import NomtModel.Store.SeekRecon
+import NomtModel.Store.SeekWalkerRecon
 /-!
 Driver mode `seek` (C05 / C11): the mirror of `merkle/seek.rs` (`Store/Seek.lean`) behind a line protocol.  The harness
 (`harness/src/seek.rs`) drives the REAL `SeekRequest` through `nomt::verif_api::seek::SeekSim` (hook H18) on the same
-lines; the two output streams must be identical.  `page_walker::reconstruct_pages` is replaced by its specification
-`reconSpec` (`Store/SeekRecon.lean`).
+lines; the two output streams must be identical.  `page_walker::reconstruct_pages` is the MIRROR `Walker.reconstructPages` of
+`page_walker.rs` + the insert loop (`Seek.walkerRecon`, `Store/SeekWalkerRecon.lean`; pool pages zeroed) — the function
+`T5_seek_recon_contract_discharged` / `T5_seek_is_proveSpec_unconditional` are about (until unit Q35: the specification
+`reconSpec` of `Store/SeekRecon.lean`).
 
 * `skenv <root> <record 0|1> <primary> <secondary|none> <leaves sep=k:v,…;sep=…|-> <overlay changes>` → `ok`
   (values `vh` or `vh!` for an overflow value; changes `key:vh`, `key:-`); everything starts over
@@ -120,7 +123,7 @@ def mkEnv (root : ByteArray) (record : Bool) (prim sec : List (Key × Option SV)
     (ov : List (Key × Option SV)) : SEnv :=
   { kind := blakeHasher.kind, root := root, record := record, primary := prim, secondary := sec, leaves := leaves,
     vh := fun v => v.1, ov := ov.map (fun (k, c) => (k, c.map (·.1))), ovPages := [], disk := [],
-    recon := reconSpec blakeHasher }
+    recon := walkerRecon blakeHasher (fun _ => List.replicate 126 blakeHasher.term) }
 
 def outSys (s : St) (i : Nat) : Outcome Unit SSys → St × String
   | .ok sys => ({ s with sys := sys }, showReq sys i)
